@@ -147,5 +147,7 @@ class Ctx:
         sys.stdout.flush()
         if self.machinery_error:
             print("MACHINERY-ERROR: " + self.machinery_error)
-            return 2
+            # violations found by TLC on real executions stand even if a later self-check of the
+            # machinery (e.g. a negative control built from the same, now deviating, run) failed
+            return 1 if seen else 2
         return 1 if seen else 0
